@@ -161,11 +161,12 @@ theorem mem_applicableIn {l : List LChain} {d : Nat} {c : Chain} :
     listener, most specific destination-port match) enforce `effectiveMode d`: plaintext is admitted iff
     the mode is not STRICT, Istio mutual TLS is terminated iff the mode is not DISABLE, TLS is never
     terminated without a client certificate, and under STRICT **every** selected chain terminates mutual
-    TLS (no plaintext chain, no TLS pass-through).  `d` is not the listener's own port 15006, whose
-    traffic the blackhole chain swallows. -/
-theorem inbound_listener_enforces {ps : List PA} (hu : UniqueKeys ps) (hz : NoPortZero ps) (root : String)
+    TLS (no plaintext chain, no TLS pass-through).  `_hown` restricts the CLAIM, the proof does not need it: the
+    real listener has the blackhole chain for its own port 15006, which the model leaves out
+    (`virtualInboundPort`). -/
+theorem inbound_listener_enforces_model {ps : List PA} (hu : UniqueKeys ps) (hz : NoPortZero ps) (root : String)
     (w : Workload) (hs : w.svcNs = []) (svcPorts : List SvcPort) (declared : List Nat) (d : Nat) (hd : d > 0)
-    (_hbh : d ≠ 15006) (hU : NoUserTLSFor svcPorts d) (hD : DeclaredHaveConfigs svcPorts declared) :
+    (hU : NoUserTLSFor svcPorts d) (hD : DeclaredHaveConfigs svcPorts declared) :
     let cs := applicable (inboundChains root ps w svcPorts declared) d
     (cs.any Chain.acceptsPlaintext = true ↔ effectiveMode ps root w d ≠ .strict) ∧
     (cs.any Chain.terminatesMTLS = true ↔ effectiveMode ps root w d ≠ .disable) ∧
@@ -426,6 +427,17 @@ theorem inbound_listener_enforces {ps : List PA} (hu : UniqueKeys ps) (hz : NoPo
       obtain ⟨proto, hcm⟩ := hsound c hc
       exact (chains_enforce _ hne proto).2.2.2.2 hstrict c hcm
 
+/-- `inbound_listener_enforces_model` as a claim about the real listener: not for the listener's own port. -/
+theorem inbound_listener_enforces {ps : List PA} (hu : UniqueKeys ps) (hz : NoPortZero ps) (root : String)
+    (w : Workload) (hs : w.svcNs = []) (svcPorts : List SvcPort) (declared : List Nat) (d : Nat) (hd : d > 0)
+    (_hown : d ≠ virtualInboundPort) (hU : NoUserTLSFor svcPorts d) (hD : DeclaredHaveConfigs svcPorts declared) :
+    let cs := applicable (inboundChains root ps w svcPorts declared) d
+    (cs.any Chain.acceptsPlaintext = true ↔ effectiveMode ps root w d ≠ .strict) ∧
+    (cs.any Chain.terminatesMTLS = true ↔ effectiveMode ps root w d ≠ .disable) ∧
+    (cs.any Chain.terminatesOneWayTLS = false) ∧
+    (effectiveMode ps root w d = .strict → ∀ c ∈ cs, c.terminatesMTLS = true) :=
+  inbound_listener_enforces_model hu hz root w hs svcPorts declared d hd hU hD
+
 /-- **User TLS on a Sidecar ingress listener is the only one-way TLS termination, and only under
     DISABLE.**  Every chain of the listener that terminates TLS without requiring a client certificate
     belongs to a chain config with user TLS settings whose port's effective mode is DISABLE. -/
@@ -534,6 +546,94 @@ theorem declared_have_configs (services ingress : List SvcPort) (merge : Bool) :
             List.mem_filter.mpr ⟨hsp, by simp only [Bool.not_eq_true] at hany; simp [hany]⟩
           exact firstPerTargetAux_covers [] _ sp (List.mem_append_left _ hmemf) (by simp)
 
+/-! ## Interception mode NONE -/
+
+/-- Interception NONE: the chain configs are the ingress listeners, every one bound to its port. -/
+def boundConfigs (ingress : List SvcPort) : List SvcPort :=
+  (firstPerTarget ingress).map (fun sp => { sp with bind := true })
+
+theorem inboundChainsNone_eq (root : String) (ps : List PA) (w : Workload) (ingress : List SvcPort) :
+    inboundChainsNone root ps w ingress =
+      (boundConfigs ingress).flatMap (entryChains (compose root ((initAuthn root ps).configsFor w))) := by
+  simp [inboundChainsNone, boundConfigs, List.flatMap_map]
+
+/-- Chains of the virtualInbound listener do not matter for a port that has a listener of its own. -/
+theorem applicable_append_none (l1 R : List LChain) (d : Nat) (hR : ∀ c ∈ R, c.lst = none)
+    (hL : ∃ lc ∈ l1, lc.lst = some d) : applicable (l1 ++ R) d = applicable l1 d := by
+  have hown : (l1 ++ R).filter (fun c => c.lst == some d) = l1.filter (fun c => c.lst == some d) := by
+    rw [List.filter_append]
+    have : R.filter (fun c => c.lst == some d) = [] := by
+      apply List.filter_eq_nil_iff.mpr
+      intro c hc
+      simp [hR c hc]
+    rw [this, List.append_nil]
+  have hne : (l1.filter (fun c => c.lst == some d)).isEmpty = false := by
+    obtain ⟨lc, hlc, hl⟩ := hL
+    cases h : l1.filter (fun c => c.lst == some d) with
+    | nil =>
+      have : lc ∈ l1.filter (fun c => c.lst == some d) := List.mem_filter.mpr ⟨hlc, by simp [hl]⟩
+      rw [h] at this; cases this
+    | cons a t => rfl
+  unfold applicable listenerFor
+  simp only [hown, hne, Bool.false_eq_true, if_false]
+
+/-- For a port that has a listener, a proxy without redirection serves exactly what the custom listener of a
+    redirecting proxy with the same (bound) configs serves. -/
+theorem inboundChainsNone_applicable (root : String) (ps : List PA) (w : Workload) (ingress : List SvcPort) (d : Nat)
+    (hL : ∃ lc ∈ inboundChainsNone root ps w ingress, lc.lst = some d) :
+    applicable (inboundChainsNone root ps w ingress) d =
+      applicable (inboundChains root ps w (boundConfigs ingress) ((boundConfigs ingress).map (fun s => s.target))) d := by
+  rw [inboundChainsNone_eq] at hL ⊢
+  unfold inboundChains
+  simp only [List.append_assoc]
+  rw [applicable_append_none _ _ d _ hL]
+  intro c hc
+  rcases List.mem_append.mp hc with h | h
+  · exact (mem_chainsFor.mp h).2.1
+  · obtain ⟨e, _, he⟩ := List.mem_flatMap.mp h
+    exact (mem_chainsFor.mp he).2.1
+
+/-- An ingress listener on port `d` gives the proxy a listener bound to `d`. -/
+theorem inboundChainsNone_has_listener {ps : List PA} (hu : UniqueKeys ps) (root : String)
+    (w : Workload) (hs : w.svcNs = []) (ingress : List SvcPort) (d : Nat)
+    (hU : NoUserTLSFor (boundConfigs ingress) d) (hI : ∃ sp ∈ ingress, sp.target = d) :
+    ∃ lc ∈ inboundChainsNone root ps w ingress, lc.lst = some d := by
+  obtain ⟨sp, hsp, htd⟩ := hI
+  obtain ⟨sp', hsp', ht'⟩ := firstPerTargetAux_covers [] ingress sp hsp (by simp)
+  have hb : ({ sp' with bind := true } : SvcPort) ∈ boundConfigs ingress := List.mem_map.mpr ⟨sp', hsp', rfl⟩
+  have htb : ({ sp' with bind := true } : SvcPort).target = d := by simp [ht', htd]
+  have hut : ({ sp' with bind := true } : SvcPort).userTLS = false := by
+    cases h : ({ sp' with bind := true } : SvcPort).userTLS with
+    | false => rfl
+    | true => exact absurd htb (hU _ hb h).1
+  rw [inboundChainsNone_eq]
+  generalize hm : compose root ((initAuthn root ps).configsFor w) = m
+  have hmode : m.modeForPort d = effectiveMode ps root w d := by rw [← hm]; exact compose_eq_spec hu root w hs d
+  have hne := (chains_enforce (m.modeForPort d) (by rw [hmode]; exact effectiveMode_total ps root w d) sp'.proto).2.2.2.1
+  obtain ⟨ch, hch⟩ := List.exists_mem_of_ne_nil _ hne
+  refine ⟨{ dst := dstOf d, chain := ch, lst := some d }, List.mem_flatMap.mpr ⟨_, hb, ?_⟩, rfl⟩
+  apply (mem_entryChains_regular hut).mpr
+  have htd' : sp'.target = d := ht'.trans htd
+  refine ⟨by simp [htd'], by simp [SvcPort.listener, htd'], ?_⟩
+  simp only [htd']
+  exact hch
+/-- **inbound_none_enforces.**  A proxy with interception mode NONE: on every port that has a listener (a
+    Sidecar ingress port) the chains enforce the port's effective mode, as for a redirecting proxy. -/
+theorem inbound_none_enforces {ps : List PA} (hu : UniqueKeys ps) (hz : NoPortZero ps) (root : String)
+    (w : Workload) (hs : w.svcNs = []) (ingress : List SvcPort) (d : Nat) (hd : d > 0)
+    (hU : NoUserTLSFor (boundConfigs ingress) d) (hI : ∃ sp ∈ ingress, sp.target = d) :
+    let cs := applicable (inboundChainsNone root ps w ingress) d
+    (cs.any Chain.acceptsPlaintext = true ↔ effectiveMode ps root w d ≠ .strict) ∧
+    (cs.any Chain.terminatesMTLS = true ↔ effectiveMode ps root w d ≠ .disable) ∧
+    (cs.any Chain.terminatesOneWayTLS = false) ∧
+    (effectiveMode ps root w d = .strict → ∀ c ∈ cs, c.terminatesMTLS = true) := by
+  intro cs
+  have hcs : cs = applicable (inboundChains root ps w (boundConfigs ingress) ((boundConfigs ingress).map (fun s => s.target))) d :=
+    inboundChainsNone_applicable root ps w ingress d (inboundChainsNone_has_listener hu root w hs ingress d hU hI)
+  rw [hcs]
+  exact inbound_listener_enforces_model hu hz root w hs (boundConfigs ingress) _ d hd hU
+    (fun p hp => by obtain ⟨sp, hsp, rfl⟩ := List.mem_map.mp hp; exact ⟨sp, hsp, rfl⟩)
+
 /-- The fixture of the `inbound` stream: a service whose port (81) differs from its target port (8081),
     and a second service in conflict on target port 8080. -/
 def exServices : List SvcPort :=
@@ -554,5 +654,11 @@ example : (applicable (inboundChains "istio-system" exPolicies exWorkload exSvcP
 example : ∀ c ∈ applicable (inboundChains "istio-system" exPolicies exWorkload exSvcPorts exDeclared) 8081, c.terminatesMTLS = true :=
   (inbound_listener_enforces (by decide) (by decide) "istio-system" exWorkload rfl exSvcPorts exDeclared 8081 (by decide)
     (by decide) (by decide) (declared_have_configs _ _ _)).2.2.2 (by decide)
+
+/-- interception NONE, ingress listeners on 80 and 443: port 80 of `exWorkload` is DISABLE - plaintext admitted. -/
+def exIngress : List SvcPort := [ { port := 80, target := 80, proto := .http }, { port := 443, target := 443, proto := .tcp } ]
+example : (applicable (inboundChainsNone "istio-system" exPolicies exWorkload exIngress) 80).any Chain.acceptsPlaintext = true :=
+  (inbound_none_enforces (by decide) (by decide) "istio-system" exWorkload rfl exIngress 80 (by decide) (by decide)
+    (by decide)).1.mpr (by decide)
 
 end IstioModel.C10
